@@ -1,0 +1,54 @@
+//go:build verif
+
+package radius
+
+// Add-only verification hooks for property C15 (CoA/Disconnect requests are
+// acted on only if authentic).  Nothing here changes behaviour; the file is
+// compiled only with `-tags verif`.
+
+import (
+	"context"
+	"fmt"
+	"net"
+	"sync/atomic"
+)
+
+// VerifC15LocalAddr returns the UDP address the CoA server is bound to
+// (nil before Start).  Needed because the listener is started on port 0.
+func (s *CoAServer) VerifC15LocalAddr() *net.UDPAddr {
+	if s.conn == nil {
+		return nil
+	}
+	a, _ := s.conn.LocalAddr().(*net.UDPAddr)
+	return a
+}
+
+// VerifC15StartRecovered performs exactly the steps of Start (resolve, listen,
+// mark running) and then runs the real, unmodified receiveLoop in a goroutine
+// that recovers a panic instead of letting it kill the process.  The returned
+// channel receives the recovered panic value (nil on a normal return of the
+// loop) and is then closed.
+func (s *CoAServer) VerifC15StartRecovered(ctx context.Context) (<-chan any, error) {
+	addr, err := net.ResolveUDPAddr("udp", s.addr)
+	if err != nil {
+		return nil, fmt.Errorf("failed to resolve address: %w", err)
+	}
+	conn, err := net.ListenUDP("udp", addr)
+	if err != nil {
+		return nil, fmt.Errorf("failed to listen: %w", err)
+	}
+	s.conn = conn
+	atomic.StoreInt32(&s.running, 1)
+
+	done := make(chan any, 1)
+	go func() {
+		defer close(done)
+		defer func() {
+			if r := recover(); r != nil {
+				done <- r
+			}
+		}()
+		s.receiveLoop(ctx)
+	}()
+	return done, nil
+}
